@@ -12,11 +12,12 @@ sys.path.insert(0, os.path.dirname(os.path.dirname(os.path.abspath(__file__))))
 from vf.common import *
 from vf import build as vbuild
 from ref.script import *
+from ref import taproot
 from checks import gen
 from checks.lockstep import parse_events, Ev
 
 PROP = 'C04'
-FIELDS = ['stack', 'altstack', 'condition-stack', 'opcount', 'position', 'codehash-start', 'op-sequence', 'done-flag', 'codeseparator-pos', 'sig-budget', 'p2sh-flag', 'commitment-index', 'pending-script']
+FIELDS = ['stack', 'altstack', 'condition-stack', 'opcount', 'position', 'codehash-start', 'op-sequence', 'done-flag', 'codeseparator-pos', 'sig-budget', 'p2sh-flag', 'commitment-index', 'pending-script', 'opcode-position']
 
 
 def doc(name):
@@ -63,6 +64,16 @@ def fixed_scripts():
         flags=STANDARD & ~F["DISCOURAGE_UPGRADABLE_PUBKEYTYPE"], sv=TAPSCRIPT, tx=('taproot',), xd=('leaf', 'none', 400))
     add('tapscript-codesep-digest', asm(OP_1, OP_CODESEPARATOR, OP_2, OP_CODESEPARATOR, OP_DROP, OP_DROP, SIG64, bytes(range(32, 64)), OP_CHECKSIG),
         flags=STANDARD, sv=TAPSCRIPT, tx=('taproot',), xd=('leaf', 'none', 400))
+    # a script-path session: the commitment steps come first (they advance the step counter, not the opcode position)
+    tscr = asm(OP_1, OP_CODESEPARATOR, OP_2, OP_CODESEPARATOR, OP_DROP, OP_DROP, SIG64, KEY33_UPG, OP_CHECKSIG)
+    ikey = PUB33[1:]
+    nodes = [bytes([7]) * 32, bytes([0xf0]) * 32]
+    kk = taproot.tapleaf_hash(tscr)
+    for nd in nodes:
+        kk = taproot.tapbranch(kk, nd)
+    q, par = taproot.output_key(ikey, kk)
+    add('tapscript-after-commitment', tscr, flags=STANDARD & ~F["DISCOURAGE_UPGRADABLE_PUBKEYTYPE"], sv=TAPSCRIPT, tx=('taproot',), xd=('-', 'none', 400))
+    S[-1]['tce'] = (bytes([0xc0 | par]) + ikey + b''.join(nodes), q)
     redeem = asm(OP_1, OP_2, OP_ADD, OP_3, OP_EQUAL)
     add('scriptsig-spk-p2sh', asm(OP_7, redeem), succ=bytes([OP_HASH160, 20]) + hash160(redeem) + bytes([OP_EQUAL]))
     add('scriptsig-spk', asm(OP_2, OP_3), succ=asm(OP_ADD, OP_5, OP_EQUAL, OP_1, OP_IF, OP_NOP, OP_ENDIF))
@@ -93,6 +104,8 @@ def session_cmds(cid, c, tail):
         cmds.append('ST %s' % items(c['stack']))
     if c.get('succ'):
         cmds.append('SS %s' % hexs(c['succ']))
+    if c.get('tce'):
+        cmds.append('TCE %s %s %s' % (c['tce'][0].hex(), c['tce'][1].hex(), hexs(c['script'])))
     cmds.append('SU')
     return cmds + list(tail)
 
